@@ -12,13 +12,16 @@ import time
 from harness import common
 
 CLAUSE_PROPS = {
-    'NoHang': ['C01', 'C04', 'C10', 'C20'], 'NoWaitingAtRest': ['C01', 'C04', 'C10'], 'DeclaredErrorsOnly': ['C01'],
+    'NoHang': ['C01', 'C04', 'C10', 'C12', 'C20'], 'NoWaitingAtRest': ['C01', 'C04', 'C10', 'C12'], 'DeclaredErrorsOnly': ['C01'],
     'WfMoves': ['C03'], 'ResultOnce': ['C03', 'C06'], 'SuccessSticky': ['C03'], 'FinishedFrozen': ['C03', 'C11', 'C20'],
     'JoinGate': ['C04'], 'JoinOnce': ['C04'], 'Caused': ['C04'], 'ReqGate': ['C04'], 'OnlyNeededOnce': ['C04'],
     'DupNoEffect': ['C06'], 'StartOnce': ['C06', 'C10'], 'NoDoubleDispatch': ['C06', 'C10'],
     'WithinLimit': ['C07'], 'OnePerIndex': ['C07'], 'CompleteAfterAll': ['C07'], 'WithItemsFinalState': ['C07'],
     'NoNewTasksWhilePaused': ['C10'], 'PauseAck': ['C10'],
     'NoNewTasksAfterStop': ['C11'], 'StopAck': ['C11'], 'TreeCancelled': ['C11'],
+    'AttemptBound': ['C08'], 'StopAtFirstSuccess': ['C08'], 'FinalIffLast': ['C08'], 'DelayRespected': ['C08'],
+    'WaitBeforeRespected': ['C08'], 'WaitAfterRespected': ['C08'], 'TimeoutJudged': ['C08'], 'FailOnApplied': ['C08'],
+    'RerunRestores': ['C12'], 'SkipApplied': ['C12'], 'RerunReexecutes': ['C12'], 'PartialRerunOnlyFailed': ['C12', 'C07'],
     'ParentMirrorsChild': ['C09'], 'RootAndNamespace': ['C09'],
     'Prescribed': ['C01', 'C02', 'C09', 'C10', 'C12'],
 }
@@ -61,7 +64,8 @@ def judge(d, traces, chunk=150):
         tf = os.path.join(d, 'runs_%d.ndjson' % k)
         with open(tf, 'w') as fh:
             for t in part:
-                fh.write(json.dumps({'prog': t['prog'], 'meta': {'mayPause': t['meta']['mayPause'], 'faulty': t['meta']['faulty']},
+                fh.write(json.dumps({'prog': t['prog'], 'meta': {'mayPause': t['meta']['mayPause'], 'faulty': t['meta']['faulty'],
+                                              'policies': bool(t['prog']['flags'].get('retry') or t['prog']['flags'].get('policy'))},
                                      'declared': t['declared'], 'steps': t['steps']}) + '\n')
         mod = os.path.join(d, 'MC_EngineObsTrace_%d.tla' % k)
         with open(mod, 'w') as fh:
